@@ -124,6 +124,7 @@ func (prop) Run(c core.Case) core.Outcome {
 					out.Checks = append(out.Checks, core.Check{Tag: "O", What: "wellformed-image-saves", Exp: "ok", Got: r.directClass, Sig: "direct-" + r.directClass})
 				}
 				out.Checks = append(out.Checks, r.roundTripChecks(wf)...)
+				out.Checks = append(out.Checks, r.meChecks()...)
 				if wf && img != nil && r.dsClass == "ok" && r.exClass == "ok" && r.pdClass == "ok" {
 					// the independent reader agrees on an unedited image (this also validates the reader)
 					out.Checks = append(out.Checks, core.Check{Tag: "O", What: "reassembled-content", Exp: "same", Got: contentCheck(img, r.in, r.out, nil), Sig: "reassembled-content"})
@@ -139,6 +140,8 @@ func (prop) Run(c core.Case) core.Outcome {
 		return out
 	case "nvar":
 		return runNvar(c)
+	case "cimg": // gap closing round 3: images with compressed sections (gap3.go)
+		return runComp(c)
 	}
 	panic("c07: unknown op " + c.Op)
 }
@@ -405,6 +408,12 @@ func (prop) Gen(r *rand.Rand, tier string) []core.Case {
 		}
 		cs = append(cs, imgCase("wf-"+kind, img, "1"))
 	}
+	// follow-up wp-c07c: ME regions with hand-made partition tables
+	nme := 30
+	if tier == "thorough" {
+		nme = 400
+	}
+	cs = append(cs, meCases(r, nme)...)
 	// single-field edits
 	for i := 0; i < ne; i++ {
 		img, kind := genImage(r, tier)
@@ -455,6 +464,7 @@ func (prop) Gen(r *rand.Rand, tier string) []core.Case {
 	}
 	cs = append(cs, mutants(r, nm)...)
 	cs = append(cs, nvarCases(r, tier)...)
+	cs = append(cs, compCases(r, tier)...) // gap closing round 3 (gap3.go)
 	return cs
 }
 
